@@ -74,7 +74,10 @@ fn c03_oracle(_sc: &Scenario, reference: &Outcome, got: &Outcome) -> Option<(Str
 
 pub fn c03(tier: Tier) -> Result<Report, String> {
     let thorough = tier == Tier::Thorough;
-    let scenarios = scenarios::confluent_all(thorough);
+    let mut scenarios = scenarios::confluent_all(thorough);
+    // the confluent binary-churn and failure scenarios are confluent programs too
+    scenarios.extend(scenarios::bin_all().into_iter().filter(|s| s.confluent));
+    scenarios.extend(scenarios::fail_all().into_iter().filter(|s| s.confluent));
     let plan = Plan {
         property: "C03",
         scenarios,
